@@ -27,7 +27,7 @@ BOUNDS = {
     'thorough': 'all request names x all option vectors x all candidates at every depth, directory and ZIP',
 }
 ASSUMPTIONS = ['documented variants = enabled case forms x known extensions; with fuzzy matching additionally the -MIB / -mib suffix '
-               'added (if absent) or everything from the first -mib (any case) removed (if present), for the enabled case forms',
+               'added (if the name does not end in it) or removed (if it does, any case), for the enabled case forms',
                'HTTP and FTP readers are covered by URL dispatch only (no network in the sandbox)']
 
 EXTS = ['', '.txt', '.mib', '.my', '.TXT', '.MIB', '.MY']
@@ -50,19 +50,18 @@ def variant_sets(name, fuzzy, orig, upper, lower):
     def stems(o, u, l, fz):
         st = list(case_forms(name, o, u, l))
         if fz:
-            pos = name.lower().find('-mib')
-            if pos != -1:
-                st += [s[:pos] for s in case_forms(name, o, u, l)]
+            # the -MIB SUFFIX is removed if the name ends in it (any case), added otherwise
+            if name.lower().endswith('-mib'):
+                st += [s[:-4] for s in case_forms(name, o, u, l)]
             else:
                 st += [(name + '-mib').upper(), (name + '-mib').lower()]
         return st
     demanded = set(s + e for s in stems(orig, upper, lower, fuzzy) for e in EXTS if s)
     # related: anything a more permissive configuration could have matched
     related = set(s + e for s in stems(True, True, True, True) for e in EXTS if s)
-    pos = name.lower().find('-mib')
     extra = [name + '-MIB', name + '-mib', name.upper() + '-MIB', name.lower() + '-mib']
-    if pos != -1:
-        extra += [name[:pos], name[:pos].upper(), name[:pos].lower()]
+    if name.lower().endswith('-mib'):
+        extra += [name[:-4], name[:-4].upper(), name[:-4].lower()]
     related |= set(s + e for s in extra for e in EXTS if s)
     return demanded, related | demanded
 
